@@ -41,7 +41,7 @@ def generate(run_seed, tier):
             fams.append("cut")
         # bias: siblings that differ in one operand inside one graph (key-prefix collisions)
         if rw.random() < 0.6:
-            fams += ["twin"] * 3 + ["window", "headtail", "repartition"]
+            fams += ["twin"] * 3 + ["window", "headtail", "repartition", "partitions", "partitions", "alias", "cut"]
         refw = reference_world()
 
         def ref_compute(coll):
@@ -51,6 +51,7 @@ def generate(run_seed, tier):
 
         g = W.Generator(rw, ref_compute, families=fams, knob_space=W.knob_space_default(), max_ops=7 if tier == "quick" else 9,
                         pool_knobs=True, knob_prob=0.6)
+        g.allow_partition_size = True
         recipe = g.generate(n_targets=rw.choice([1, 2, 2]))
         if recipe is None or not recipe["targets"]:
             return None
